@@ -105,11 +105,21 @@ Section SetsMain.
   Variable crs_units : cu.
   Local Notation create := (create_area_def RO pfwd pinv fac geographic crs_units).
 
-  Lemma fin_area (h w : Z) (e e' : R * R * R * R) : (1 <= h)%Z -> (1 <= w)%Z -> e = e' ->
-    (if (h =? 0)%Z || (w =? 0)%Z then @Raised R else Area e (h, w)) = Area e' (h, w).
-  Proof. intros ? ? ->. destruct (Z.eqb_spec h 0); [lia|]. destruct (Z.eqb_spec w 0); [lia|]. reflexivity. Qed.
   Lemma Reqb_false a b : a <> b -> Reqb a b = false.
   Proof. unfold Reqb. destruct (Req_EM_T a b); congruence. Qed.
+  Lemma make_area_ok (h w : Z) (x0 y0 x1 y1 : R) : (1 <= h)%Z -> (1 <= w)%Z -> x0 < x1 -> y0 < y1 ->
+    make_area RO (x0, y0, x1, y1) (h, w) = Area (x0, y0, x1, y1) (h, w).
+  Proof.
+    intros Hh Hw Hx Hy. unfold make_area. cbn [fst snd]. destruct (Z.eqb_spec h 0); [lia|]. destruct (Z.eqb_spec w 0); [lia|].
+    cbn [orb eqb div sub ofZ RO zeroT].
+    assert (0 < IZR w) by (apply (IZR_lt 0); lia). assert (0 < IZR h) by (apply (IZR_lt 0); lia).
+    rewrite !Reqb_false; [reflexivity| |].
+    - apply Rgt_not_eq. apply Rdiv_lt_0_compat; lra.
+    - apply Rgt_not_eq. apply Rdiv_lt_0_compat; lra.
+  Qed.
+  Lemma fin_area (h w : Z) (e : R * R * R * R) (x0 y0 x1 y1 : R) : (1 <= h)%Z -> (1 <= w)%Z -> x0 < x1 -> y0 < y1 ->
+    e = (x0, y0, x1, y1) -> make_area RO e (h, w) = Area (x0, y0, x1, y1) (h, w).
+  Proof. intros ? ? ? ? ->. now apply make_area_ok. Qed.
 
   Ltac prep := unfold create_area_def, describe, g_center, g_radius, g_res, g_ul, sc in *; cbn [fst snd] in *;
     cbn [a_width a_height a_extent a_shape a_ul a_center a_resolution a_radius a_units bind].
@@ -128,7 +138,7 @@ Section SetsMain.
     match goal with |- context[round_shape RO (?a, ?b)] =>
       replace a with (IZR (gh g)) by fld; replace b with (IZR (gw g)) by fld end;
     rewrite round_shape_R; cbn [fst snd]; rewrite !round_dim_exact.
-  Ltac fin g := apply fin_area; [assumption|assumption|unfold g_ext; repeat f_equal; fld].
+  Ltac fin g := unfold g_ext; apply fin_area; [assumption|assumption|assumption|assumption|repeat f_equal; fld].
 
   Theorem param_sets_agree d g attr units c s :
     wf_grid g -> unit_ok fac geographic crs_units (eff_units crs_units attr units) c s ->
